@@ -256,6 +256,31 @@ def run():
     ctx0.drift = []
     fncommon.validate(ctx0, s82, "Trace_Steffensen", "sts8", nshards=1)
     t.check("one steffensen abscissa changed by one ulp -> that run is rejected (drift)", [d["case"] for d in ctx0.drift] == [s8[j]["id"]])
+    from checks import c17
+    lmc = [c for c in c17.lm_cases(ctx0, rng0, 60) if c["variant"] == "jac"][:15]
+    for k, c in enumerate(lmc):
+        c["id"] = k + 1
+    lkeys = ("id", "variant", "xs", "ys", "init", "tol", "damping", "st", "params", "blocks")
+    lrows = []
+    for r_ in fncommon.observe(ctx0, "fit", lmc, "stl", nproc=1):
+        fb = sum(b["n"] for b in r_["blocks"] if b["k"] == "f")
+        lrows.append(dict({k: r_[k] for k in lkeys}, blocks_complete=(fb == r_["calls"] and len(r_["blocks"]) < 800)))
+    ctx0.drift = []
+    fncommon.validate(ctx0, lrows, "Trace_Lm", "stl", nshards=1)
+    t.check("clean curve_fit_jac() closure-call traces explained by the control skeleton LmControl", not ctx0.drift and len(lrows) == 15, "%d runs" % len(lrows))
+    j = next(k for k, r_ in enumerate(lrows) if r_["st"] == "ok" and len(r_["blocks"]) >= 11)
+    l2 = copy.deepcopy(lrows)
+    l2[j]["blocks"] = l2[j]["blocks"][:-3]              # as if the loop had stopped one pass early
+    ctx0.drift = []
+    fncommon.validate(ctx0, l2, "Trace_Lm", "stl", nshards=1)
+    t.check("last main pass removed (loop stopped early) -> that run is rejected (drift)", [d["case"] for d in ctx0.drift] == [lrows[j]["id"]])
+    l2 = copy.deepcopy(lrows)
+    bl = l2[j]["blocks"]
+    q = max(k for k, b in enumerate(bl) if b["k"] == "j")
+    bl[q]["p"] = bl[q - 1]["p"] if bl[q]["p"] != bl[q - 1]["p"] else bl[q - 2]["p"]     # Jacobian taken at the other trial point
+    ctx0.drift = []
+    fncommon.validate(ctx0, l2, "Trace_Lm", "stl", nshards=1)
+    t.check("Jacobian taken at the trial point that was not kept -> that run is rejected (drift)", [d["case"] for d in ctx0.drift] == [lrows[j]["id"]])
     # ---- binding: IVP contract trace -----------------------------------------------------------------
     ctx = vlib.Ctx("SELFTEST", "quick", 1, "other")
     rng = random.Random(7)
